@@ -1,7 +1,7 @@
 //! hx-frame: implementation executor for C12 (RPC frames: checksum trailer, size
 //! check, end-to-end delivery).
 //!
-//! Generates frames of six message types (unit-like, fixed-size, string, nested
+//! Generates frames of seven message types (unit-like, fixed-size, string, nested, doubly nested string lists,
 //! vectors, byte blob, and datacake's own `Status`), corrupts them (every single-bit
 //! flip, every truncation, 1..8 byte extensions, checksum-valid short bodies, other
 //! damage), runs `datacake_rpc::to_view_bytes` / `DataView::<T>::using` and whole
@@ -73,6 +73,15 @@ pub struct Nested {
     rows: Vec<Vec<u32>>,
     names: Vec<String>,
     opt: Option<u16>,
+}
+
+/// Two list levels that both need serializer scratch space at the same time: the outer list's
+/// resolvers stay allocated while every inner list allocates its own (8 bytes per string).
+#[derive(Archive, Serialize, Deserialize, Clone, PartialEq, Debug)]
+#[archive_attr(derive(Debug))]
+pub struct Deep {
+    tag: u32,
+    groups: Vec<Vec<String>>,
 }
 
 #[derive(Archive, Serialize, Deserialize, Clone, PartialEq, Debug)]
@@ -195,6 +204,35 @@ fn gen_nested(rng: &mut Rng, size: usize) -> Nested {
         rows,
         names,
         opt: if rng.chance(1, 2) { Some(rng.next() as u16) } else { None },
+    }
+}
+
+fn gen_deep(rng: &mut Rng, size: usize) -> Deep {
+    let mut budget = size as i64;
+    let mut groups: Vec<Vec<String>> = Vec::new();
+    while budget > 0 && !rng.chance(1, 6 + size as u64 / 25) {
+        // an inner list of short strings; from 200 bytes on every third one is sized around what
+        // is left of the serializer's 1 KiB first-tier scratch (128 resolvers of 8 bytes) once
+        // the outer list has taken its share, the others anywhere up to 200 strings
+        let n = if size >= 200 && rng.chance(1, 3) {
+            let back = rng.below((groups.len() as u64 + 2).min(24)) as usize;
+            if rng.chance(1, 2) { 128 - back } else { 128 + back }
+        } else {
+            rng.below((budget as u64 / 9).min(200) + 1) as usize
+        };
+        groups.push(
+            (0..n)
+                .map(|_| {
+                    let l = rng.below(4) as usize;
+                    rand_string(rng, l)
+                })
+                .collect(),
+        );
+        budget -= 8 + 8 * n as i64;
+    }
+    Deep {
+        tag: rng.next() as u32,
+        groups,
     }
 }
 
@@ -443,6 +481,7 @@ fn all_ops() -> Vec<Ops> {
         msg_ops!(Text, "text", gen_text),
         msg_ops!(Nested, "nested", gen_nested),
         msg_ops!(Blob, "blob", gen_blob),
+        msg_ops!(Deep, "deep", gen_deep),
         base_ops!(Status, "status", gen_status, None, None),
     ]
 }
@@ -462,6 +501,7 @@ impl RpcService for EchoSvc {
         registry.add_handler::<Text>();
         registry.add_handler::<Nested>();
         registry.add_handler::<Blob>();
+        registry.add_handler::<Deep>();
         registry.add_handler::<FailReq>();
     }
 }
@@ -489,6 +529,7 @@ echo_handler!(Fixed);
 echo_handler!(Text);
 echo_handler!(Nested);
 echo_handler!(Blob);
+echo_handler!(Deep);
 
 #[datacake_rpc::async_trait]
 impl Handler<FailReq> for EchoSvc {
@@ -1133,9 +1174,9 @@ fn main() {
     let large: &[(&str, usize)] = if light {
         &[("text", 600)]
     } else if thorough {
-        &[("text", 4000), ("nested", 4000), ("blob", 4080), ("status", 3000), ("blob", 2500), ("nested", 1500)]
+        &[("text", 4000), ("nested", 4000), ("blob", 4080), ("status", 3000), ("blob", 2500), ("nested", 1500), ("deep", 3500)]
     } else {
-        &[("text", 2000), ("nested", 3000), ("blob", 4080), ("status", 1200)]
+        &[("text", 2000), ("nested", 3000), ("blob", 4080), ("status", 1200), ("deep", 2600)]
     };
     for (name, size) in large {
         let o = find(&ops, name).unwrap();
